@@ -92,11 +92,20 @@ GOOD = {'int': [1, 0, '1', True], 'str': ['x', ''], 'float': [1.5, 1, '1'], 'boo
         'any': [1, 'x', None, [1], {'k': 1}]}
 
 
-def choose_names(rnd, sig, extra):
-    """Mostly a set of names that binds (all required, nothing unknown); sometimes deliberately not."""
+def choose_xs(rnd, sig):
+    """The exclusion predicate: none (2/3), else a non-empty subset of the parameters that have a default."""
+    dflt = [n for n, k, d in sig if d]
+    if not dflt or rnd.random() < 0.66:
+        return [], None
+    xs = [n for n in dflt if rnd.random() < 0.6] or [rnd.choice(dflt)]
+    return xs, rnd.choice(['name', 'default'])
+
+
+def choose_names(rnd, sig, extra, xs=()):
+    """Mostly a set of names that binds (all required, nothing unknown, nothing excluded); sometimes deliberately not."""
     names = [p[0] for p in sig]
     if rnd.random() < 0.72:
-        return [n for n, k, d in sig if (not d) or rnd.random() < 0.5]
+        return [n for n, k, d in sig if (not d) or (rnd.random() < 0.5 and (n not in xs or rnd.random() < 0.15))]
     pool = names + ['zz'] + extra
     return rnd.sample(pool, min(len(pool), rnd.randint(0, len(names) + 1)))
 
@@ -119,7 +128,8 @@ def generate(seed, tier):
         names = [p[0] for p in sig]
         ctx = rnd.choice([None, None, 'ctx'])
         props = {n: rnd.choice(FRAGS) for n in names if rnd.random() < 0.85}
-        chosen = choose_names(rnd, sig, [ctx] if ctx else [])
+        xs, xmode = choose_xs(rnd, sig)
+        chosen = choose_names(rnd, sig, [ctx] if ctx else [], xs)
         top = {'type': 'object', 'properties': props}
         if rnd.random() < 0.6:
             top['required'] = [n for n in names if (n in chosen and rnd.random() < 0.6) or rnd.random() < 0.1]
@@ -128,17 +138,19 @@ def generate(seed, tier):
         params = as_params(rnd, sig, chosen, lambda n: pick_value(rnd, props.get(n)))
         if isinstance(params, list) and rnd.random() < 0.1:
             params = params + [rnd.choice(VALUES)]
-        cases.append({'t': 'schema', 'sig': sig, 'ctx': ctx, 'schema': top, 'params': params, 'async': rnd.random() < 0.5})
+        cases.append({'t': 'schema', 'sig': sig, 'ctx': ctx, 'schema': top, 'params': params, 'async': rnd.random() < 0.5,
+                      'xs': xs, 'xmode': xmode})
     n_typed = 1800 if tier == 'quick' else 16000
     for _ in range(n_typed):
         sig = rnd.choice(all_sigs)
         names = [p[0] for p in sig]
         anns = {n: rnd.choice(list(ANNS)) for n in names}
-        chosen = choose_names(rnd, sig, [])
+        xs, xmode = choose_xs(rnd, sig)
+        chosen = choose_names(rnd, sig, [], xs)
         params = as_params(rnd, sig, chosen,
                            lambda n: rnd.choice(GOOD[anns[n]]) if (n in anns and rnd.random() < 0.8) else rnd.choice(PVALUES))
         cases.append({'t': 'typed', 'sig': sig, 'ctx': rnd.choice([None, None, 'ctx']), 'anns': anns, 'params': params,
-                      'coerce': rnd.random() < 0.6, 'async': rnd.random() < 0.5})
+                      'coerce': rnd.random() < 0.6, 'async': rnd.random() < 0.5, 'xs': xs, 'xmode': xmode})
     return cases
 
 
@@ -166,16 +178,34 @@ def full_sig(case):
     return sig
 
 
+class Inject(str):
+    """Marks a default value as 'injected' (the by-default-type exclusion predicate looks for it); renders as the default marker."""
+
+
+INJ = Inject('<default>')
+
+
+def predicate(case):
+    xs = tuple(case.get('xs') or ())
+    if not xs:
+        return None
+    if case.get('xmode') == 'default':
+        return lambda name, annotation, default: isinstance(default, Inject)
+    return lambda name, annotation, default: name in xs
+
+
 def make_function(case, is_async, log, annotations=None):
     sig = full_sig(case)
+    xs = case.get('xs') or ()
     parts, star = [], False
     for n, k, d in sig:
         if k == 'KO' and not star:
             parts.append('*')
             star = True
         ann = ': ANN_%s' % n if annotations and n in annotations else ''
-        parts.append('%s%s%s' % (n, ann, ' = "<default>"' if d else ''))
-    ns = {'render': render, 'LOG': log}
+        dv = ' = INJ' if (n in xs and case.get('xmode') == 'default') else ' = "<default>"'
+        parts.append('%s%s%s' % (n, ann, dv if d else ''))
+    ns = {'render': render, 'LOG': log, 'INJ': INJ}
     for n, a in (annotations or {}).items():
         ns['ANN_' + n] = ANNS[a]
     body = '[' + ', '.join('[%r, render(%s)]' % (n, n) for n, _, _ in sig) + ']'
@@ -207,6 +237,8 @@ def independent_bind(case):
     """inspect.Signature.bind on the context-free signature, written out independently of pjrpc."""
     params = []
     for n, k, d in [tuple(p) for p in case['sig']]:
+        if n in (case.get('xs') or ()):
+            continue            # the client-visible function does not have the excluded parameters
         kind = inspect.Parameter.POSITIONAL_OR_KEYWORD if k == 'PK' else inspect.Parameter.KEYWORD_ONLY
         params.append(inspect.Parameter(n, kind, default='<default>' if d else inspect.Parameter.empty))
     s = inspect.Signature(params)
@@ -220,7 +252,7 @@ def independent_bind(case):
 def observe(case):
     log = []
     if case['t'] == 'schema':
-        v = v_js.JsonSchemaValidator()
+        v = v_js.JsonSchemaValidator(exclude_param=predicate(case))
         f = v.validate(make_function(case, case['async'], log), schema=case['schema'])
         obs = dispatch(case, f, case['async'])
         bound = independent_bind(case)
@@ -233,12 +265,12 @@ def observe(case):
             except jsonschema.ValidationError:
                 js = False
         return {'obs': obs, 'js': js, 'ran': len(log)}
-    v = v_pd.PydanticValidator(coerce=case['coerce'])
+    v = v_pd.PydanticValidator(coerce=case['coerce'], exclude_param=predicate(case))
     f = v.validate(make_function(case, case['async'], log, annotations=case['anns']))
     obs = dispatch(case, f, case['async'])
     verdicts = {}
     p = case['params']
-    names = [q[0] for q in case['sig']]
+    names = [q[0] for q in case['sig'] if q[0] not in (case.get('xs') or ())]
     supplied = dict(zip(names, p)) if isinstance(p, list) else dict(p)
     for n, val in supplied.items():
         if n not in case['anns']:
@@ -280,12 +312,13 @@ def cpp(p):
 def encode(case, obs):
     sig = full_sig(case)
     cm = '(CtxByName %s)' % cstr(case['ctx']) if case['ctx'] else 'CtxNone'
+    xs = clist(cstr(n) for n in (case.get('xs') or ()))
     if case['t'] == 'schema':
-        return ('(C14.CSchema %s %s %s %s %s %s %s)'
-                % (dispenv.csig(sig), cm, cjson('CTX'), cschema(case['schema']), cpp(case['params']), copt(obs['js'], cbool), cobs(obs['obs'])))
+        return ('(C14.CSchema %s %s %s %s %s %s %s %s)'
+                % (dispenv.csig(sig), cm, xs, cjson('CTX'), cschema(case['schema']), cpp(case['params']), copt(obs['js'], cbool), cobs(obs['obs'])))
     vd = clist('(%s, %s)' % (cstr(n), '(Some %s)' % cjson(v[1]) if v[0] == 'ok' else 'None') for n, v in obs['verdicts'].items())
-    return ('(C14.CTyped %s %s %s %s %s %s %s)'
-            % (dispenv.csig(sig), cm, cjson('CTX'), vd, cbool(case['coerce']), cpp(case['params']), cobs(obs['obs'])))
+    return ('(C14.CTyped %s %s %s %s %s %s %s %s)'
+            % (dispenv.csig(sig), cm, xs, cjson('CTX'), vd, cbool(case['coerce']), cpp(case['params']), cobs(obs['obs'])))
 
 
 def case_key(case):
@@ -299,6 +332,6 @@ def case_from_json(c):
 def distribution(cases, obs):
     d = {}
     for c, o in zip(cases, obs):
-        k = '%s:%s' % (c['t'], o['obs'][0] if o['obs'][0] != 'other' else 'code %s' % o['obs'][1])
+        k = '%s%s:%s' % (c['t'], ' +predicate' if c.get('xs') else '', o['obs'][0] if o['obs'][0] != 'other' else 'code %s' % o['obs'][1])
         d[k] = d.get(k, 0) + 1
     return d
